@@ -102,6 +102,7 @@ type world struct {
 
 	incs       atomic.Int32
 	active     atomic.Int32
+	plainState int // deliberately unsynchronised, see rcv.Receive
 	overlap    atomic.Value
 	pid        *actor.PID
 	senders    []*actor.PID
@@ -153,6 +154,9 @@ func (r *rcv) Receive(c *actor.Context) {
 			c.Message(), r.inc, n-1))
 	}
 	defer w.active.Add(-1)
+	// Receiver state that "needs no synchronisation" (C02): a plain field written by every invocation.
+	// In a -race build the detector reports two invocations that are not ordered by happens-before.
+	w.plainState++
 	e := Entry{Who: "R", Inc: r.inc, From: w.fromIndex(c.Sender())}
 	switch m := c.Message().(type) {
 	case actor.Initialized:
